@@ -57,13 +57,15 @@ AllDigits(s, i, j) == \A k \in i..j : IsDigit(s[k])
 Leap(y) == (y % 4 = 0 /\ y % 100 # 0) \/ y % 400 = 0
 DaysIn(y, m) == IF m = 2 THEN (IF Leap(y) THEN 29 ELSE 28) ELSE IF m \in {4, 6, 9, 11} THEN 30 ELSE 31
 
-IsDate(s) ==
+(* ld ("lenient dates"): diagnostic mode in which February 29 exists in every year *)
+IsDateL(s, ld) ==
     /\ Len(s) = 10 /\ s[5] = 45 /\ s[8] = 45
     /\ AllDigits(s, 1, 4) /\ AllDigits(s, 6, 7) /\ AllDigits(s, 9, 10)
     /\ LET y == D2(s, 1) * 100 + D2(s, 3)
            m == D2(s, 6)
            d == D2(s, 9)
-       IN m >= 1 /\ m <= 12 /\ d >= 1 /\ d <= DaysIn(y, m)
+       IN m >= 1 /\ m <= 12 /\ d >= 1 /\ d <= (IF ld /\ m = 2 THEN 29 ELSE DaysIn(y, m))
+IsDate(s) == IsDateL(s, FALSE)
 
 (* RFC 3339 full-time: HH:MM:SS[.frac](Z|+HH:MM|-HH:MM) *)
 IsTime(s) ==
@@ -80,9 +82,10 @@ IsTime(s) ==
                  /\ AllDigits(s, fend + 1, fend + 2) /\ AllDigits(s, fend + 4, fend + 5)
                  /\ D2(s, fend + 1) <= 23 /\ D2(s, fend + 4) <= 59
 
-IsDateTime(s) ==
+IsDateTimeL(s, ld) ==
     /\ Len(s) >= 20 /\ s[11] \in {84, 116}
-    /\ IsDate(SubSeq(s, 1, 10)) /\ IsTime(SubSeq(s, 12, Len(s)))
+    /\ IsDateL(SubSeq(s, 1, 10), ld) /\ IsTime(SubSeq(s, 12, Len(s)))
+IsDateTime(s) == IsDateTimeL(s, FALSE)
 
 RECURSIVE SplitOn(_, _, _, _)
 SplitOn(s, c, cur, acc) ==
@@ -103,10 +106,10 @@ IsUuid(s) ==
     /\ Len(s) = 36
     /\ \A i \in 1..36 : IF i \in {9, 14, 19, 24} THEN s[i] = 45 ELSE IsHexDigit(s[i])
 
-FormatOK(f, s) ==
-    CASE f = K_date -> IsDate(s)
+FormatOK(f, s, ld) ==
+    CASE f = K_date -> IsDateL(s, ld)
       [] f = K_time -> IsTime(s)
-      [] f = K_date_time -> IsDateTime(s)
+      [] f = K_date_time -> IsDateTimeL(s, ld)
       [] f = K_ipv4 -> IsIpv4(s)
       [] f = K_uuid -> IsUuid(s)
       [] OTHER -> TRUE
@@ -133,16 +136,16 @@ NumKwOK(S, v) ==
               MultipleOf(x, NumVal(Kw(S, K_multipleOf)[1]))
 
 (* ---- the validity relation ---------------------------------------------------- *)
-RECURSIVE Valid(_, _, _, _, _)
+RECURSIVE Valid(_, _, _, _, _, _)
 
 SeqAll(s, Pred(_)) == \A i \in DOMAIN s : Pred(s[i])
 
-Valid(root, P, S, v, fuel) ==
+Valid(root, P, S, v, fuel, ld) ==
     IF fuel = 0 THEN TRUE
     ELSE IF TagOf(S) = "bool" THEN S[2]
     ELSE IF ~IsObj(S) THEN TRUE
     ELSE
-    LET V(S2, v2) == Valid(root, P, S2, v2, fuel - 1)
+    LET V(S2, v2) == Valid(root, P, S2, v2, fuel - 1, ld)
         kw(k) == Kw(S, k)[1]
         has(k) == Has(S, k)
         arr(k) == kw(k)[2]
@@ -171,7 +174,7 @@ Valid(root, P, S, v, fuel) ==
           /\ has(K_minLength) /\ IsNum(kw(K_minLength)) => Len(v[2]) >= DigitsVal(NumVal(kw(K_minLength)).i, 0)
           /\ has(K_maxLength) /\ IsNum(kw(K_maxLength)) => Len(v[2]) <= DigitsVal(NumVal(kw(K_maxLength)).i, 0)
           /\ has(K_pattern) /\ IsStr(kw(K_pattern)) => PatternOK(P, kw(K_pattern)[2], v[2])
-          /\ has(K_format) /\ IsStr(kw(K_format)) => FormatOK(kw(K_format)[2], v[2])
+          /\ has(K_format) /\ IsStr(kw(K_format)) => FormatOK(kw(K_format)[2], v[2], ld)
     (* arrays *)
     /\ IsArr(v) =>
           LET es == v[2]
@@ -208,7 +211,8 @@ Valid(root, P, S, v, fuel) ==
                         dv == kw(K_dependentRequired)[2][i][2]
                     IN  dk \in keys /\ IsArr(dv) => \A j \in DOMAIN dv[2] : IsStr(dv[2][j]) => dv[2][j][2] \in keys
 
-Validate(P, S, v) == Valid(S, P, S, v, 200)
+Validate(P, S, v) == Valid(S, P, S, v, 200, FALSE)
+ValidateLenientDates(P, S, v) == Valid(S, P, S, v, 200, TRUE)
 
 (* Is every pattern / format of the schema given meaning by this specification?  (Otherwise   *)
 (* Validate over-approximates and only the soundness direction may be asserted.)              *)
